@@ -4,7 +4,7 @@ import re
 import shutil
 import tempfile
 
-from vp_lib.api import H, cover
+from vp_lib.api import H, cover, pick
 from vp_lib.carbonenv import make_receiver, drop_receiver, Recorder, quiet
 from vp_lib.cachelab import sset
 
@@ -42,8 +42,8 @@ class FakeClock(object):
 
 
 def _admit(bl_ne, bl_hit, wl_ne, wl_hit, vi, ts_kind, ts_int, rem, fi, ri, now, proto):
-  value = VALUES[vi]
-  res = RESOLUTIONS[ri]
+  value = pick(VALUES, vi)
+  res = pick(RESOLUTIONS, ri)
   q, r = ts_int, rem
   if res and not (0 <= r < res):
     r = 0
@@ -54,7 +54,7 @@ def _admit(bl_ne, bl_hit, wl_ne, wl_hit, vi, ts_kind, ts_int, rem, fi, ri, now, 
   elif ts_kind == 1:
     ts = -1                           # "use the current time"
   else:
-    ts = FRACTIONS[fi]
+    ts = pick(FRACTIONS, fi)
   sset('MIN_TIMESTAMP_RESOLUTION', res)
   cls = [protocols.MetricLineReceiver, protocols.MetricDatagramReceiver, protocols.MetricPickleReceiver][proto]
   p = make_receiver(cls, connect=(proto != 1))
